@@ -4,6 +4,7 @@ import (
 	"go/constant"
 	"go/token"
 	"go/types"
+	"reflect"
 	"regexp"
 	"sort"
 	"strconv"
@@ -122,13 +123,16 @@ func ruleIDExemptionBySignature(r *Run) {
 // not put a time limit on writes to the client connection. A deadline on a net.Conn belongs to
 // the connection, not to the goroutine that set it: one set for a keep-alive also cuts an event
 // write that another goroutine has in progress, leaving half a frame on the wire and ending the
-// subscription without the event. The rule is over the handler package (where the client
-// connection lives): no call of SetWriteDeadline / SetDeadline with anything but the zero time.
+// subscription without the event. The rule is over every function of the module, whatever its
+// package: a call of SetWriteDeadline / SetDeadline on a connection that is, or may be, the
+// client's (anything but a connection the module dialled itself), with a time that is not
+// shown to be the zero time — for a helper that is handed the connection and the time
+// (`common.LimitWrite(conn, until)`), by looking at what its callers hand it.
 func ruleNoClientWriteDeadline(r *Run) {
 	const rule = "R8f.deadline"
 	scanned := 0
 	for _, fn := range r.P.Funcs {
-		if top := topFn(fn); top.Pkg == nil || top.Pkg.Pkg.Path() != modPath {
+		if !inModule(topFn(fn)) {
 			continue
 		}
 		scanned++
@@ -140,10 +144,11 @@ func ruleNoClientWriteDeadline(r *Run) {
 			}
 			c := ci.Common()
 			var mname string
+			var recv ssa.Value
 			if c.IsInvoke() {
-				mname = c.Method.Name()
-			} else if sc := c.StaticCallee(); sc != nil && sc.Signature.Recv() != nil {
-				mname = sc.Name()
+				mname, recv = c.Method.Name(), c.Value
+			} else if sc := c.StaticCallee(); sc != nil && sc.Signature.Recv() != nil && len(c.Args) > 0 {
+				mname, recv = sc.Name(), c.Args[0]
 			}
 			if mname != "SetWriteDeadline" && mname != "SetDeadline" {
 				continue
@@ -155,20 +160,171 @@ func ruleNoClientWriteDeadline(r *Run) {
 			if namedOf(t.Type()) != "time.Time" {
 				continue
 			}
+			// whose connection: one the module dialled itself (an upstream service) is not the
+			// client's; anything else — the upgraded connection, a connection of unknown origin — counts
+			origins := map[string]bool{}
+			r.connOrigins(recv, origins, map[ssa.Value]bool{}, 0)
+			if len(origins) == 1 && origins["dialled"] {
+				continue
+			}
 			n++
 			key := "write deadline"
 			if n > 1 {
 				key += "#" + strconv.Itoa(n)
 			}
-			if k, isC := t.(*ssa.Const); isC && k.Value == nil {
-				r.OK(rule, fnName(fn), key, r.P.pos(ins.Pos()), "the zero time: lifts a deadline, sets none")
+			if r.zeroTime(t, map[ssa.Value]bool{}, 0) {
+				r.OK(rule, fnName(fn), key, r.P.pos(ins.Pos()), "the zero time (here, or in every call of this helper): lifts a deadline, sets none")
 				continue
 			}
 			r.Bad(rule, fnName(fn), key, r.P.pos(ins.Pos()),
-				"a write deadline is put on a connection in the handler package: it applies to every write on that connection, those of other goroutines already in progress included; an event being written to a slow subscriber is cut short (half a frame on the wire) and the subscription ends without it")
+				"a write deadline is put on the client connection (or on a connection the rule cannot tell from it): it applies to every write on that connection, those of other goroutines already in progress included; an event being written to a slow subscriber is cut short (half a frame on the wire) and the subscription ends without it")
 		}
 	}
-	r.OKTrivial(rule, "", "functions scanned", "-", strconv.Itoa(scanned)+" functions of the handler package scanned for SetWriteDeadline/SetDeadline")
+	r.OKTrivial(rule, "", "functions scanned", "-", strconv.Itoa(scanned)+" functions of the module scanned for SetWriteDeadline/SetDeadline on a connection that is not one the module dialled")
+}
+
+// connOrigins: where the connection v comes from — "dialled" (the result of a Dial: an upstream
+// connection), "upgraded" (the result of an Upgrade: the client's) or "unknown". Parameters
+// are followed to the arguments of the callers, captured variables and fields to what is
+// stored in them.
+func (r *Run) connOrigins(v ssa.Value, out map[string]bool, seen map[ssa.Value]bool, depth int) {
+	if v == nil || depth > 8 {
+		out["unknown"] = true
+		return
+	}
+	v = unwrap(v)
+	if seen[v] {
+		return
+	}
+	seen[v] = true
+	switch x := v.(type) {
+	case *ssa.Extract:
+		r.connOrigins(x.Tuple, out, seen, depth+1)
+		return
+	case *ssa.Call:
+		name := calleeName(&x.Call)
+		base := name
+		if i := strings.LastIndex(base, "."); i >= 0 {
+			base = base[i+1:]
+		}
+		sc := x.Call.StaticCallee()
+		switch {
+		case sc != nil && inModule(sc) && sc.Blocks != nil:
+			for _, ret := range returnsOf(sc) {
+				for _, rv := range retVals(ret) {
+					if implementsConn(rv.Type()) {
+						r.connOrigins(rv, out, seen, depth+1)
+					}
+				}
+			}
+		case strings.HasPrefix(base, "Dial"):
+			out["dialled"] = true
+		case strings.HasPrefix(base, "Upgrade"), strings.HasPrefix(base, "Accept"), strings.HasPrefix(base, "Hijack"):
+			out["upgraded"] = true
+		default:
+			out["unknown"] = true
+		}
+		return
+	case *ssa.Phi:
+		for _, e := range x.Edges {
+			r.connOrigins(e, out, seen, depth+1)
+		}
+		return
+	case *ssa.Parameter:
+		sites := r.callSitesOf(x.Parent())
+		idx := paramIndex(x)
+		if len(sites) == 0 {
+			out["unknown"] = true
+		}
+		for _, site := range sites {
+			if site == nil || idx < 0 || idx >= len(site.Common().Args) {
+				out["unknown"] = true
+				continue
+			}
+			r.connOrigins(site.Common().Args[idx], out, seen, depth+1)
+		}
+		return
+	case *ssa.UnOp:
+		if x.Op == token.MUL {
+			if owner := cellOwner(x.X); owner != nil {
+				sts := storesTo(owner)
+				if len(sts) == 0 {
+					out["unknown"] = true
+				}
+				for _, st := range sts {
+					r.connOrigins(st.Val, out, seen, depth+1)
+				}
+				return
+			}
+			if fa, ok := x.X.(*ssa.FieldAddr); ok {
+				f := fieldOf(fa)
+				stores := 0
+				for _, g := range r.P.Funcs {
+					for _, i := range allInstrs(g) {
+						if st, ok := i.(*ssa.Store); ok {
+							if fa2, ok := st.Addr.(*ssa.FieldAddr); ok && f != nil && fieldOf(fa2) == f {
+								stores++
+								r.connOrigins(st.Val, out, seen, depth+1)
+							}
+						}
+					}
+				}
+				if stores == 0 {
+					out["unknown"] = true
+				}
+				return
+			}
+		}
+	}
+	out["unknown"] = true
+}
+
+// implementsConn: the type has the deadline methods of a connection.
+func implementsConn(t types.Type) bool {
+	ms := types.NewMethodSet(t)
+	for i := 0; i < ms.Len(); i++ {
+		if ms.At(i).Obj().Name() == "SetWriteDeadline" {
+			return true
+		}
+	}
+	return false
+}
+
+// zeroTime: the time value is the zero time: the constant, or a parameter that every caller
+// gives the zero time.
+func (r *Run) zeroTime(v ssa.Value, seen map[ssa.Value]bool, depth int) bool {
+	v = unwrap(v)
+	if seen[v] || depth > 4 {
+		return false
+	}
+	seen[v] = true
+	switch x := v.(type) {
+	case *ssa.Const:
+		return x.Value == nil
+	case *ssa.Parameter:
+		sites := r.callSitesOf(x.Parent())
+		idx := paramIndex(x)
+		for _, site := range sites {
+			if site == nil || idx < 0 || idx >= len(site.Common().Args) || !r.zeroTime(site.Common().Args[idx], seen, depth+1) {
+				return false
+			}
+		}
+		return len(sites) > 0
+	case *ssa.UnOp:
+		// `var zero time.Time` / `time.Time{}` kept in a local that is never assigned
+		if al, ok := x.X.(*ssa.Alloc); ok && x.Op == token.MUL && len(storesTo(al)) == 0 && al.Referrers() != nil {
+			for _, ref := range *al.Referrers() {
+				switch y := ref.(type) {
+				case *ssa.UnOp, *ssa.DebugRef:
+				default:
+					_ = y
+					return false
+				}
+			}
+			return true
+		}
+	}
+	return false
 }
 
 // ruleCloseReason (R8g.reason): the reason text of a close frame is cropped by the library
@@ -178,12 +334,28 @@ func ruleNoClientWriteDeadline(r *Run) {
 // the frame the client receives is not a well-formed close frame (RFC 6455 5.5.1: the reason
 // is UTF-8). The reason must be text whose origin the rule can bound: ASCII text (constants,
 // numbers, their concatenations: any crop of it is valid), a short constant, or the result of
-// a module function that works on it with unicode/utf8.
+// a module function that is shown to hand back at most 123 bytes, cut — where it cuts — at a
+// character boundary. A frame the library compiled in advance carries the library's own
+// constant reason.
 func ruleCloseReason(r *Run) {
 	const rule = "R8g.reason"
 	n := 0
 	for _, fn := range r.P.Funcs {
+		nc := 0
 		for _, ins := range allInstrs(fn) {
+			// a ready-made close frame of the library (ws.CompiledCloseNormalClosure …)
+			if ld, ok := ins.(*ssa.UnOp); ok && ld.Op == token.MUL {
+				if g, ok := ld.X.(*ssa.Global); ok && g.Pkg != nil && g.Pkg.Pkg.Path() == "github.com/gobwas/ws" && strings.HasPrefix(g.Name(), "CompiledClose") {
+					n++
+					nc++
+					key := "ready-made close frame"
+					if nc > 1 {
+						key += "#" + strconv.Itoa(nc)
+					}
+					r.OK(rule, fnName(fn), key, r.P.pos(ins.Pos()), "ws."+g.Name()+": a frame the library compiled in advance, with a status code and no reason text of the module's")
+				}
+				continue
+			}
 			ci, ok := ins.(ssa.CallInstruction)
 			if !ok {
 				continue
@@ -209,7 +381,7 @@ func ruleCloseReason(r *Run) {
 			}
 		}
 	}
-	r.AtLeast(rule, "close frame bodies built", n, 1)
+	r.AtLeast(rule, "close frames with a reason to judge (bodies built, ready-made frames of the library)", n, 1)
 }
 
 func safeReason(r *Run, v ssa.Value, seen map[ssa.Value]bool, depth int) (string, bool) {
@@ -270,12 +442,11 @@ func safeReason(r *Run, v ssa.Value, seen map[ssa.Value]bool, depth int) (string
 			return "a number", true
 		}
 		if sc := x.Call.StaticCallee(); sc != nil && inModule(sc) && sc.Blocks != nil {
-			for _, i := range allInstrs(sc) {
-				if ci, ok := i.(ssa.CallInstruction); ok && strings.HasPrefix(calleeName(ci.Common()), "unicode/utf8.") {
-					return "cut by " + fnName(sc) + ", which works on it with unicode/utf8 (assumed to cut at a character boundary within the frame's room)", true
-				}
-			}
-			all := true
+			// every return hands back safe text, or text the function has shown to fit the frame
+			// (at most 123 bytes: the library does not crop it) and, where the function has cut
+			// it, to end at a character boundary. Mentioning unicode/utf8 shows nothing (fifth
+			// audit: a helper that counted 123 RUNES).
+			all, fitted := true, false
 			var why string
 			for _, ret := range returnsOf(sc) {
 				for _, rv := range retVals(ret) {
@@ -283,10 +454,17 @@ func safeReason(r *Run, v ssa.Value, seen map[ssa.Value]bool, depth int) (string
 					if !isB || bt.Info()&types.IsString == 0 {
 						continue
 					}
+					if fitsFrame(rv, ret.Block()) {
+						fitted = true
+						continue
+					}
 					if w, ok := safeReason(r, rv, seen, depth+1); !ok {
-						all, why = false, w
+						all, why = false, w+" (returned by "+fnName(sc)+", which does not show it to be at most 123 bytes long and cut at a character boundary)"
 					}
 				}
+			}
+			if all && fitted {
+				return "the result of " + fnName(sc) + ", every return of which is safe text or text tested to be at most 123 bytes long and, where it was cut, to end at a character boundary", true
 			}
 			if all {
 				return "the result of " + fnName(sc) + ", every return of which is safe text", true
@@ -299,8 +477,27 @@ func safeReason(r *Run, v ssa.Value, seen map[ssa.Value]bool, depth int) (string
 		return "the result of " + name + ", of a length and content the rule cannot bound", false
 	case *ssa.UnOp:
 		if x.Op == token.MUL {
+			if owner := cellOwner(x.X); owner != nil {
+				// a local variable (possibly shared with closures): every value assigned to it
+				stores := storesTo(owner)
+				for _, st := range stores {
+					if why, ok := safeReason(r, st.Val, seen, depth+1); !ok {
+						return why, false
+					}
+				}
+				if len(stores) > 0 {
+					return "a variable that is only given safe texts", true
+				}
+				return "a variable of an origin the rule cannot bound", false
+			}
 			if fa, ok := x.X.(*ssa.FieldAddr); ok {
 				f := fieldOf(fa)
+				// a struct that is a decode target (json.Unmarshal, a Decoder: anything that is
+				// handed by reference to code outside the module) is filled from outside, whatever
+				// the module itself stores in it
+				if by := r.filledFromOutside(fa.X.Type()); by != "" {
+					return "a field of a message that is filled in from outside (" + shortStruct(namedOf(fa.X.Type())) + " is handed to " + by + "): the text the peer sent", false
+				}
 				// every value the module stores in this field
 				stores := 0
 				for _, g := range r.P.Funcs {
@@ -334,12 +531,13 @@ func safeReason(r *Run, v ssa.Value, seen map[ssa.Value]bool, depth int) (string
 			}
 		}
 		callers := 0
-		for _, e := range r.P.CG.In[fn] {
-			if e.Kind != "static" || e.Site == nil || idx >= len(e.Site.Common().Args) {
+		for _, site := range r.callSitesOf(fn) {
+			// a function, or a closure value that is only ever called: each call lists its arguments
+			if site == nil || idx < 0 || idx >= len(site.Common().Args) {
 				return "a parameter with callers the rule cannot enumerate", false
 			}
 			callers++
-			if why, ok := safeReason(r, e.Site.Common().Args[idx], seen, depth+1); !ok {
+			if why, ok := safeReason(r, site.Common().Args[idx], seen, depth+1); !ok {
 				return why, false
 			}
 		}
@@ -726,4 +924,305 @@ func ruleArrivalOrder(r *Run) {
 		}
 	}
 	r.OKTrivial(rule, "", "atomic read-modify-write sites", "-", strconv.Itoa(n)+" site(s) on the query path ("+strconv.Itoa(len(onPath))+" functions reachable from the handler)")
+}
+
+// maxCloseReason: a control frame carries 125 bytes, two of which are the status code.
+const maxCloseReason = 123
+
+// fitsFrame: the string v, returned from block at, has been shown by its function to need no
+// crop — or a harmless one — by the library: on every path to at its length in BYTES was tested
+// to be at most 123 (or it is a slice with such a bound), and, unless it is text the function
+// has not cut itself (a parameter, the result of a call), it was tested to be valid UTF-8
+// (utf8.ValidString, or empty), or it is a prefix cut at an index tested with utf8.RuneStart.
+func fitsFrame(v ssa.Value, at *ssa.BasicBlock) bool {
+	v = unwrap(v)
+	fn := at.Parent()
+	if fn == nil {
+		return false
+	}
+	defBlock := func(x ssa.Value) *ssa.BasicBlock {
+		if ins, ok := x.(ssa.Instruction); ok && ins.Block() != nil {
+			return ins.Block()
+		}
+		return fn.Blocks[0]
+	}
+	// every path from the (last) definition of x to at crosses an edge on which fact holds
+	onEveryPath := func(x ssa.Value, fact func(cond ssa.Value, truth bool) bool) bool {
+		start := defBlock(x)
+		if start == at {
+			return false
+		}
+		seen := map[*ssa.BasicBlock]bool{start: true}
+		work := []*ssa.BasicBlock{start}
+		for len(work) > 0 {
+			b := work[len(work)-1]
+			work = work[:len(work)-1]
+			iff, _ := b.Instrs[len(b.Instrs)-1].(*ssa.If)
+			for i, s := range b.Succs {
+				if iff != nil && len(b.Succs) == 2 && b.Succs[0] != b.Succs[1] {
+					cond, truth := iff.Cond, i == 0
+					for {
+						u, ok := cond.(*ssa.UnOp)
+						if !ok || u.Op != token.NOT {
+							break
+						}
+						cond, truth = u.X, !truth
+					}
+					if fact(cond, truth) {
+						continue
+					}
+				}
+				if s == at {
+					return false
+				}
+				if !seen[s] {
+					seen[s] = true
+					work = append(work, s)
+				}
+			}
+		}
+		return true
+	}
+	// cmpConst: cond compares subject(x) with an integer constant; returns the operator with the
+	// subject on the left
+	cmpConst := func(cond ssa.Value, subject func(ssa.Value) bool) (token.Token, int64, bool) {
+		bo, ok := cond.(*ssa.BinOp)
+		if !ok {
+			return 0, 0, false
+		}
+		op, x, y := bo.Op, bo.X, bo.Y
+		if subject(y) {
+			x, y = y, x
+			switch op {
+			case token.LSS:
+				op = token.GTR
+			case token.GTR:
+				op = token.LSS
+			case token.LEQ:
+				op = token.GEQ
+			case token.GEQ:
+				op = token.LEQ
+			}
+		}
+		k, isK := y.(*ssa.Const)
+		if !subject(x) || !isK || k.Value == nil || k.Value.Kind() != constant.Int {
+			return 0, 0, false
+		}
+		c, exact := constant.Int64Val(k.Value)
+		return op, c, exact
+	}
+	// atMost: cond being truth says subject <= bound
+	atMost := func(cond ssa.Value, truth bool, subject func(ssa.Value) bool, bound int64) bool {
+		op, c, ok := cmpConst(cond, subject)
+		if !ok {
+			return false
+		}
+		switch {
+		case truth && op == token.LEQ, truth && op == token.EQL, !truth && op == token.GTR:
+			return c <= bound
+		case truth && op == token.LSS, !truth && op == token.GEQ:
+			return c-1 <= bound
+		case !truth && op == token.NEQ:
+			return c <= bound
+		}
+		return false
+	}
+	lenOf := func(x ssa.Value) func(ssa.Value) bool {
+		return func(y ssa.Value) bool {
+			cl, ok := y.(*ssa.Call)
+			if !ok {
+				return false
+			}
+			b, ok := cl.Call.Value.(*ssa.Builtin)
+			return ok && b.Name() == "len" && unwrap(cl.Call.Args[0]) == x
+		}
+	}
+	var upper func(x ssa.Value, busy map[ssa.Value]bool) (int64, bool)
+	upper = func(x ssa.Value, busy map[ssa.Value]bool) (int64, bool) {
+		switch y := x.(type) {
+		case *ssa.Const:
+			if y.Value != nil && y.Value.Kind() == constant.Int {
+				return constant.Int64Val(y.Value)
+			}
+		case *ssa.Phi:
+			if busy[y] {
+				return -1 << 62, true // the variable itself, counted down
+			}
+			busy[y] = true
+			defer delete(busy, y)
+			best := int64(-1 << 62)
+			for _, e := range y.Edges {
+				u, ok := upper(e, busy)
+				if !ok {
+					return 0, false
+				}
+				if u > best {
+					best = u
+				}
+			}
+			return best, true
+		case *ssa.BinOp:
+			if k, ok := y.Y.(*ssa.Const); ok && y.Op == token.SUB && k.Value != nil && k.Value.Kind() == constant.Int && constant.Sign(k.Value) >= 0 {
+				return upper(y.X, busy)
+			}
+		}
+		return 0, false
+	}
+	// text the function has not cut or put together itself
+	var whole func(x ssa.Value, depth int) bool
+	whole = func(x ssa.Value, depth int) bool {
+		switch y := unwrap(x).(type) {
+		case *ssa.Parameter, *ssa.Const:
+			return true
+		case *ssa.Call:
+			_, isBuiltin := y.Call.Value.(*ssa.Builtin)
+			return !isBuiltin
+		case *ssa.UnOp:
+			return y.Op == token.MUL
+		case *ssa.Phi:
+			if depth > 4 {
+				return false
+			}
+			for _, e := range y.Edges {
+				if !whole(e, depth+1) {
+					return false
+				}
+			}
+			return true
+		}
+		return false
+	}
+	// (1) at most 123 bytes
+	short := false
+	if sl, ok := v.(*ssa.Slice); ok && sl.High != nil {
+		if u, ok := upper(sl.High, map[ssa.Value]bool{}); ok && u <= maxCloseReason {
+			short = true
+		}
+	}
+	if !short && !onEveryPath(v, func(cond ssa.Value, truth bool) bool { return atMost(cond, truth, lenOf(v), maxCloseReason) }) {
+		return false
+	}
+	// (2) not cut inside a character
+	if whole(v, 0) {
+		return true
+	}
+	validFact := func(cond ssa.Value, truth bool) bool {
+		if c, ok := cond.(*ssa.Call); ok && truth && calleeName(&c.Call) == "unicode/utf8.ValidString" && len(c.Call.Args) == 1 && unwrap(c.Call.Args[0]) == v {
+			return true
+		}
+		return atMost(cond, truth, lenOf(v), 0) // the empty text
+	}
+	if onEveryPath(v, validFact) {
+		return true
+	}
+	if sl, ok := v.(*ssa.Slice); ok && sl.High != nil && whole(sl.X, 0) && (sl.Low == nil || isIntConst(sl.Low, 0)) {
+		n := sl.High
+		startFact := func(cond ssa.Value, truth bool) bool {
+			if c, ok := cond.(*ssa.Call); ok && truth && calleeName(&c.Call) == "unicode/utf8.RuneStart" && len(c.Call.Args) == 1 {
+				// s[n] of a string is an Index (a Lookup in older go/ssa)
+				switch lk := c.Call.Args[0].(type) {
+				case *ssa.Index:
+					if unwrap(lk.X) == unwrap(sl.X) && lk.Index == n {
+						return true
+					}
+				case *ssa.Lookup:
+					if unwrap(lk.X) == unwrap(sl.X) && lk.Index == n {
+						return true
+					}
+				}
+			}
+			return atMost(cond, truth, func(y ssa.Value) bool { return y == n }, 0) // cut at the very start
+		}
+		if _, isConst := n.(*ssa.Const); !isConst && onEveryPath(n, startFact) {
+			return true
+		}
+	}
+	return false
+}
+
+var outsideFilledMemo = map[*Prog]map[*types.Struct]string{}
+
+// filledFromOutside: t is (a pointer to) a struct that is handed by reference — itself or as
+// part of something that holds it — to a function outside the module through an interface
+// value: a decoder fills it by reflection (json.Unmarshal(msg, &subMsg)). Returns the callee's
+// name, or "". Functions that only format or encode what they are handed are not counted.
+func (r *Run) filledFromOutside(t types.Type) string {
+	memo, ok := outsideFilledMemo[r.P]
+	if !ok {
+		memo = map[*types.Struct]string{}
+		outsideFilledMemo[r.P] = memo
+		var walk func(t types.Type, by string, seen map[types.Type]bool)
+		walk = func(t types.Type, by string, seen map[types.Type]bool) {
+			if t == nil || seen[t] {
+				return
+			}
+			seen[t] = true
+			switch u := t.Underlying().(type) {
+			case *types.Pointer:
+				walk(u.Elem(), by, seen)
+			case *types.Slice:
+				walk(u.Elem(), by, seen)
+			case *types.Array:
+				walk(u.Elem(), by, seen)
+			case *types.Map:
+				walk(u.Key(), by, seen)
+				walk(u.Elem(), by, seen)
+			case *types.Struct:
+				if _, known := memo[u]; !known {
+					memo[u] = by
+				}
+				for i := 0; i < u.NumFields(); i++ {
+					// what a decoder can set: exported fields, for encoding/json those not tagged "-"
+					if !u.Field(i).Exported() {
+						continue
+					}
+					if tag, ok := reflect.StructTag(u.Tag(i)).Lookup("json"); ok && tag == "-" && strings.Contains(by, "encoding/json") {
+						continue
+					}
+					walk(u.Field(i).Type(), by, seen)
+				}
+			}
+		}
+		for _, fn := range r.P.Funcs {
+			for _, ins := range allInstrs(fn) {
+				ci, ok := ins.(ssa.CallInstruction)
+				if !ok {
+					continue
+				}
+				c := ci.Common()
+				if sc := c.StaticCallee(); sc == nil || (inModule(sc) && sc.Blocks != nil) {
+					if !c.IsInvoke() {
+						continue
+					}
+				}
+				name := calleeName(c)
+				if strings.HasPrefix(name, "fmt.") || strings.HasPrefix(name, "log.") || strings.HasPrefix(name, "(*log.Logger)") || strings.HasPrefix(name, "encoding/json.Marshal") {
+					continue
+				}
+				for _, a := range c.Args {
+					mi, ok := a.(*ssa.MakeInterface)
+					if !ok {
+						continue
+					}
+					switch mi.X.Type().Underlying().(type) {
+					case *types.Pointer, *types.Map, *types.Slice:
+						walk(mi.X.Type(), strings.TrimPrefix(name, "invoke:"), map[types.Type]bool{})
+					}
+				}
+			}
+		}
+	}
+	st, ok := derefType(t).Underlying().(*types.Struct)
+	if !ok {
+		return ""
+	}
+	if by, ok := memo[st]; ok {
+		return by
+	}
+	for k, by := range memo {
+		if types.Identical(k, st) {
+			return by
+		}
+	}
+	return ""
 }
